@@ -111,6 +111,33 @@ pub mod c11_path {
                     }
                 }
             }
+            // uneven sharding (b17): the shard that owns the duplicated tag (tag mod n = p) holds 0 / 1 tags of its own;
+            // both copies on other shards (the same / two different ones), or one copy is its only tag; and the
+            // pairwise distinct control of the same shape
+            if n >= 2 {
+                for p in 0..n {
+                    let q = (p + 1) % n;
+                    let r = (p + 2) % n;
+                    let dup_tag = (p + 7 * n) as u128;
+                    for own in 0..=1usize {
+                        for (a, b) in [(Some(q), Some(q)), (Some(q), Some(r)), (Some(p), Some(q)), (None, None)] {
+                            if (a == Some(p) && own == 0) || (n == 2 && a == Some(q) && b == Some(r)) {
+                                continue;
+                            }
+                            // fillers: distinct tags owned by arbitrary shards (never the duplicated one)
+                            let mut t: Vec<Vec<u128>> = (0..n).map(|s| if s == p { vec![] } else { (0..3u128).map(|k| 2000 + 10 * s as u128 + k).collect() }).collect();
+                            if own == 1 && a != Some(p) {
+                                t[p].push(3000 + p as u128);
+                            }
+                            for c in [a, b].into_iter().flatten() {
+                                let pos = t[c].len().min(1);
+                                t[c].insert(pos, dup_tag);
+                            }
+                            v.push(format!("c11.path {n} {}", show(&t)));
+                        }
+                    }
+                }
+            }
             // pairwise distinct inputs of various sizes, including tags that differ only in high bits
             for size in [1usize, 4, 9] {
                 let t: Vec<Vec<u128>> = (0..n).map(|s| (0..size).map(|k| ((k as u128) << 64) + (s as u128) * 7919 + (k as u128)).collect()).collect();
@@ -158,6 +185,16 @@ fn verif_c11_path() {
 //        a per-chunk validator never compares them). Expected: DuplicateBytes before the protocol starts, so
 //        the case is fast on a correct tree; anything else within 75 s (`accepted`, `timeout:…`) is the failing
 //        outcome accepted-or-not-rejected.
+//   c11.uneven <n> <p> <own> <copies> <fill>          (suite c11_uneven, b17)
+//        UNEVEN sharding: the shard that OWNS the duplicated tag holds almost nothing of its own. n shards; one
+//        encrypted report D is chosen whose tag is routed to shard p on all three helpers (`shard_picker(tag) = p`,
+//        found by searching a deterministic pool of encrypted reports); shard p is handed `own` reports as its own
+//        input (own = 0: an empty input body), every other shard `fill` distinct filler reports; `copies` = `a,b`:
+//        D is submitted on shard a and on shard b (a = p or b = p: D is one of p's `own` reports, so own >= 1;
+//        a = b != p: both copies on the same other shard), or `-`: D is not submitted at all (pairwise distinct
+//        control of the same shape, full protocol run). The number of reports a shard holds as its own input is
+//        unrelated to the number of tags routed to it, so shard p must reject whatever `own` is.
+//        -> as c11.e2e (`rejected:on-picker-shard` = on every helper exactly shard p failed with DuplicateBytes)
 // ---------------------------------------------------------------------------------------------
 pub mod c11_e2e {
     use std::{collections::BTreeSet, sync::Arc, time::Duration};
@@ -180,7 +217,11 @@ pub mod c11_e2e {
     };
 
     fn records(count: usize) -> Vec<TestHybridRecord> {
-        (0..count)
+        records_range(0, count)
+    }
+
+    fn records_range(from: usize, to: usize) -> Vec<TestHybridRecord> {
+        (from..to)
             .map(|i| {
                 if i % 3 == 2 {
                     TestHybridRecord::TestConversion {
@@ -203,24 +244,43 @@ pub mod c11_e2e {
             .collect()
     }
 
+    /// one encrypted segment (length prefix + ciphertext) per report per helper, and where its tag is routed
+    struct Encrypted {
+        key_registry: Arc<KeyRegistry<KeyPair>>,
+        segs: [Vec<Vec<u8>>; 3],
+        picks: [Vec<u32>; 3],
+    }
+
+    /// encrypts the shares of `recs` for the three helpers and appends them to `e`
+    fn encrypt_more<R: rand::Rng + rand::CryptoRng>(e: &mut Encrypted, recs: Vec<TestHybridRecord>, shards: u32, rng: &mut R, deterministic: bool) {
+        let shares: [Vec<HybridReport<BA8, BA3>>; 3] = if deterministic { recs.into_iter().share_with(rng) } else { recs.into_iter().share() };
+        for (h, hs) in shares.into_iter().enumerate() {
+            for share in hs {
+                let mut buf = Vec::new();
+                share.delimited_encrypt_to(DEFAULT_KEY_ID, e.key_registry.as_ref(), rng, &mut buf).unwrap();
+                let enc = EncryptedHybridReport::<BA8, BA3>::from_bytes(Bytes::copy_from_slice(&buf[2..])).unwrap();
+                let tag = UniqueTag::from_unique_bytes(&enc);
+                e.picks[h].push(u32::from(tag.shard_picker(ShardIndex::from(shards))));
+                e.segs[h].push(buf);
+            }
+        }
+    }
+
     async fn run_n<const N: usize>(lists: Vec<Vec<usize>>, reject_deadline_s: u64) -> String {
         let count = lists.iter().flatten().max().map_or(0, |m| m + 1);
         let mut rng = StdRng::seed_from_u64(4242);
         let key_registry = Arc::new(KeyRegistry::<KeyPair>::random(1, &mut rng));
-        let shares: [Vec<HybridReport<BA8, BA3>>; 3] = records(count).into_iter().share();
-        // one encrypted segment (length prefix + ciphertext) per report per helper
-        let mut segs: [Vec<Vec<u8>>; 3] = Default::default();
-        let mut picks: [Vec<u32>; 3] = Default::default();
-        for (h, hs) in shares.into_iter().enumerate() {
-            for share in hs {
-                let mut buf = Vec::new();
-                share.delimited_encrypt_to(DEFAULT_KEY_ID, key_registry.as_ref(), &mut rng, &mut buf).unwrap();
-                let enc = EncryptedHybridReport::<BA8, BA3>::from_bytes(Bytes::copy_from_slice(&buf[2..])).unwrap();
-                let tag = UniqueTag::from_unique_bytes(&enc);
-                picks[h].push(u32::from(tag.shard_picker(ShardIndex::from(N as u32))));
-                segs[h].push(buf);
-            }
-        }
+        let mut e = Encrypted { key_registry, segs: Default::default(), picks: Default::default() };
+        encrypt_more(&mut e, records(count), N as u32, &mut rng, false);
+        drive::<N>(e, lists, reject_deadline_s).await
+    }
+
+    /// Runs `Query::execute` on every shard of every helper: shard `s` is handed the encrypted reports `lists[s]`
+    /// (declared query size = their number; an EMPTY list is an empty input body with declared size 1 — a
+    /// `QuerySize` of 0 does not exist, and `take(sz)` of an empty stream is empty: the shard has no report
+    /// of its own).
+    async fn drive<const N: usize>(e: Encrypted, lists: Vec<Vec<usize>>, reject_deadline_s: u64) -> String {
+        let Encrypted { key_registry, segs, picks } = e;
         // which report indices are submitted more than once, and where their tags are routed
         let mut seen = BTreeSet::new();
         let mut repeated = BTreeSet::new();
@@ -235,7 +295,7 @@ pub mod c11_e2e {
         for (h, ctxs) in contexts.into_iter().enumerate() {
             for (s, ctx) in ctxs.into_iter().enumerate() {
                 let buffer: Vec<u8> = lists[s].iter().flat_map(|i| segs[h][*i].iter().copied()).collect();
-                let size = QuerySize::try_from(lists[s].len()).unwrap();
+                let size = QuerySize::try_from(lists[s].len().max(1)).unwrap();
                 let kr = Arc::clone(&key_registry);
                 futs.push(async move {
                     let params = HybridQueryParams { with_dp: 0, ..Default::default() };
@@ -317,6 +377,121 @@ pub mod c11_e2e {
         .unwrap_or_else(|e| e)
     }
 
+    /// `c11.uneven`: see the grammar above.
+    async fn run_uneven<const N: usize>(p: usize, own: usize, copies: Option<(usize, usize)>, fill: usize) -> String {
+        assert!(p < N && copies.is_none_or(|(a, b)| a < N && b < N), "harness: shard index out of range");
+        let on_p = copies.map_or(0, |(a, b)| usize::from(a == p) + usize::from(b == p));
+        assert!(on_p <= 1 && on_p <= own, "harness: a copy submitted on shard p is one of its `own` reports (at most one)");
+        let mut rng = StdRng::seed_from_u64(0xC11D + N as u64);
+        let key_registry = Arc::new(KeyRegistry::<KeyPair>::random(1, &mut rng));
+        let mut e = Encrypted { key_registry, segs: Default::default(), picks: Default::default() };
+        // D: the first report of the pool whose tag is routed to shard p by all three helpers (the three helpers
+        // hold different ciphertexts of the same report, hence different tags)
+        let needed = 1 + own + fill * (N - 1);
+        let mut d = None;
+        while d.is_none() || e.segs[0].len() < needed {
+            let have = e.segs[0].len();
+            assert!(have < 8192, "harness: no report routed to shard {p} by all helpers among {have}");
+            encrypt_more(&mut e, records_range(have, have + 32), N as u32, &mut rng, true);
+            d = (0..e.segs[0].len()).find(|i| (0..3).all(|h| e.picks[h][*i] as usize == p));
+        }
+        let d = d.unwrap();
+        let mut fillers = (0..e.segs[0].len()).filter(|i| *i != d);
+        let mut lists: Vec<Vec<usize>> = Vec::new();
+        for s in 0..N {
+            let mut l: Vec<usize> = fillers.by_ref().take(if s == p { own - on_p } else { fill }).collect();
+            if let Some((a, b)) = copies {
+                // not adjacent, not at the same position on two shards
+                if a == s {
+                    l.insert(l.len().min(1), d);
+                }
+                if b == s {
+                    l.push(d);
+                }
+            }
+            lists.push(l);
+        }
+        assert_eq!(lists[p].len(), own);
+        // a correct tree rejects before the protocol starts (well under a second); 60 s leave room for a loaded machine
+        drive::<N>(e, lists, 60).await
+    }
+
+    pub fn exec_uneven(req: &str) -> String {
+        let t: Vec<&str> = req.split(' ').collect();
+        assert_eq!(t[0], "c11.uneven");
+        let n: usize = t[1].parse().unwrap();
+        let p: usize = t[2].parse().unwrap();
+        let own: usize = t[3].parse().unwrap();
+        let copies = if t[4] == "-" {
+            None
+        } else {
+            let c = parse_nat_list::<usize>(t[4]);
+            assert_eq!(c.len(), 2);
+            Some((c[0], c[1]))
+        };
+        let fill: usize = t[5].parse().unwrap();
+        block_on_timeout(420, async move {
+            match n {
+                2 => run_uneven::<2>(p, own, copies, fill).await,
+                3 => run_uneven::<3>(p, own, copies, fill).await,
+                4 => run_uneven::<4>(p, own, copies, fill).await,
+                5 => run_uneven::<5>(p, own, copies, fill).await,
+                _ => panic!("harness: unsupported shard count {n}"),
+            }
+        })
+        .unwrap_or_else(|e| e)
+    }
+
+    pub fn generate_uneven(_rng: &mut Rng, thorough: bool) -> Vec<String> {
+        let mut v = Vec::new();
+        // the picker shard of the duplicated tag holds 0 / exactly 1 report of its own; the copies are (i) both on
+        // other shards (the same one / two different ones), (ii) one of them is the picker shard's only report
+        let shapes = |n: usize, p: usize, owns: &[usize]| -> Vec<String> {
+            let q = (p + 1) % n;
+            let r = (p + 2) % n;
+            let mut out = Vec::new();
+            for &own in owns {
+                out.push(format!("c11.uneven {n} {p} {own} {q},{q} 3"));
+                if n > 2 {
+                    out.push(format!("c11.uneven {n} {p} {own} {},{} 3", q.min(r), q.max(r)));
+                }
+                if own >= 1 {
+                    out.push(format!("c11.uneven {n} {p} {own} {},{} 3", p.min(q), p.max(q)));
+                }
+            }
+            out
+        };
+        for p in 0..2 {
+            v.extend(shapes(2, p, &[0, 1]));
+        }
+        v.extend(shapes(3, 2, &[0, 1]));
+        if thorough {
+            v.extend(shapes(3, 0, &[0, 1]));
+            v.extend(shapes(3, 1, &[0, 1]));
+            // at and above the "two reports" threshold, larger fill, more shards
+            v.extend(shapes(2, 1, &[2, 3]));
+            v.extend(shapes(3, 1, &[2]));
+            v.extend(shapes(4, 3, &[0, 1]));
+            v.extend(shapes(5, 2, &[0, 1]));
+            v.push("c11.uneven 2 0 0 1,1 9".to_string());
+            v.push("c11.uneven 3 1 1 0,1 9".to_string());
+        }
+        v
+    }
+
+    /// pairwise distinct inputs of the same shapes are accepted (full protocol run on a handful of reports: ~75 s
+    /// each in a debug build, hence a suite of its own that runs next to the others)
+    pub fn generate_uneven_ok(_rng: &mut Rng, thorough: bool) -> Vec<String> {
+        let mut v = vec!["c11.uneven 2 1 0 - 3".to_string()];
+        if thorough {
+            v.push("c11.uneven 2 0 1 - 3".to_string());
+            v.push("c11.uneven 3 2 0 - 3".to_string());
+            v.push("c11.uneven 3 0 1 - 3".to_string());
+            v.push("c11.uneven 2 1 2 - 3".to_string());
+        }
+        v
+    }
+
     pub fn generate(rng: &mut Rng, thorough: bool) -> Vec<String> {
         let mut v = Vec::new();
         let show = |l: &Vec<Vec<usize>>| l.iter().map(|x| nat_list(x)).collect::<Vec<_>>().join("/");
@@ -361,6 +536,17 @@ pub mod c11_e2e {
 #[test]
 fn verif_c11_e2e() {
     crate::ipa_verif::proto::run_suite("c11_e2e", c11_e2e::generate, c11_e2e::exec);
+}
+
+// own test function: runs concurrently with c11_e2e (whose two 4 097-report cases dominate the wall time)
+#[test]
+fn verif_c11_uneven() {
+    crate::ipa_verif::proto::run_suite("c11_uneven", c11_e2e::generate_uneven, c11_e2e::exec_uneven);
+}
+
+#[test]
+fn verif_c11_distinct_uneven() {
+    crate::ipa_verif::proto::run_suite("c11_distinct_uneven", c11_e2e::generate_uneven_ok, c11_e2e::exec_uneven);
 }
 
 // ---------------------------------------------------------------------------------------------
